@@ -37,4 +37,21 @@ ASSUME BlankBreaksTransitivity ==
    /\ Cmp3(IntV(0), Blank) = 0 /\ Cmp3(Blank, Text(S_empty)) = 0 /\ Cmp3(Blank, FALSEV) = 0
 
 \* a few fixed points of the definitions, as documentation that TLC checks
+ASSUME Examples ==
+   /\ Apply("+", Text(S_sp3sp), TRUEV) = IntV(4)            \* " 3 " + TRUE
+   /\ Apply("&", IntV(3), Num(1, 2)) = Text(<<51, 48, 46, 53>>)   \* 3 & 0.5 = "30.5"
+   /\ Apply("&", TRUEV, Blank) = Text(TrueText)
+   /\ Apply("^", IntV(-1), Num(1, 2)) = NUM                 \* (-1)^0.5
+   /\ Apply("^", Num(21, 2), IntV(400)) = NUM               \* 10.5^400 overflows
+   /\ Apply("^", IntV(2), IntV(-1)) = Num(1, 2)
+   /\ Apply("^", IntV(0), IntV(-1)) = DIV0
+   /\ Apply("/", Text(S_a), IntV(0)) = VALUE                \* coercion fails first
+   /\ Apply("=", Text(S_3), IntV(3)) = FALSEV               \* numeric text is text
+   /\ Apply("<", IntV(400), Text(S_empty)) = TRUEV          \* number < text
+   /\ Apply(">", FALSEV, Text(S_b)) = TRUEV                 \* text < logical
+   /\ Apply("=", Text(S_a), Text(S_A)) = TRUEV
+   /\ Apply("+", Text(S_inf), IntV(1)) = VALUE
+   /\ Apply("+", Err("#N/A"), Err("#REF!")) = Err("#N/A")
+   /\ Apply1("%", Text(S_05)) = Num(1, 200)
+   /\ Apply1("u-", Blank) = IntV(0)
 =============================================================================
